@@ -66,6 +66,13 @@ LEAVES = [("id", "x"), ("list-ml", "[\n  1\n  2\n]"), ("set-ml", "{\n  a = 1;\n}
 # leaves used by single families only
 EXTRA_LEAVES = {"if-nl": "if a then\n  b\nelse\n  c", "wide-id": "x" * 120}
 ALL_LEAVES = dict(LEAVES) | EXTRA_LEAVES
+# leaf pool of the exception-class stream (every kind of atom and small compound)
+LEAF_POOL = [
+    "x", "1", "1.5", "\"s\"", "\"a ${b} c\"", "''\n  s\n''", "./p", "<n>", "~/p", "true", "null", "[ ]", "{ }", "rec { }",
+    "[ 1 2 ]", "{ a = 1; }", "a.b", "a.b or c", "f x", "x: x", "{ }: 1", "{ a, ... }: a", "-1", "!a", "a ? b", "a + b",
+    "a ++ b", "a // b", "a -> b", "if a then b else c", "with a; b", "assert a; b", "let a = 1; in a", "import ./x.nix",
+    "{ inherit a; }", "{ inherit (a) b; }", "(a)", "[\n  1\n  2\n]", "{\n  a = 1;\n}", "a # c", "/* c */ a",
+]
 
 # size- (not nesting-) parameterised families: n scales the length
 SIZED = {
@@ -544,7 +551,7 @@ def explore(ctx, probe: Probe, failures: list, summary: dict, deadline: float, w
         check_family(ctx, probe, name, gen, pairs if quick else pairs + [(32, 64)], failures, summary, sized=True)
     # random cycles of two or three steps
     names = [w for w, _ in WRAPPERS]
-    n_cycles = (60 if quick else 1500) * (4 if wide else 1)
+    n_cycles = (300 if quick else 4000) * (3 if wide else 1)
     for i in range(n_cycles):
         if time.time() > deadline - (25 if quick else 300):
             ctx.count("cycles_skipped_for_time", n_cycles - i)
@@ -572,7 +579,7 @@ def explore(ctx, probe: Probe, failures: list, summary: dict, deadline: float, w
     # --- (a) exception classes
     for t in TEMPLATES:
         run_text(ctx, probe, t, "template", want_cost=True)
-    budget_texts = 4000 if quick else 200000
+    budget_texts = 15000 if quick else 300000
     done = 0
     for t in TEMPLATES:
         if time.time() > deadline - (12 if quick else 200) or done > budget_texts:
@@ -581,14 +588,30 @@ def explore(ctx, probe: Probe, failures: list, summary: dict, deadline: float, w
         for d in damaged(ctx, t, quick):
             run_text(ctx, probe, d, "damaged", want_cost=(done % 7 == 0))
             done += 1
-    n_random = (1500 if quick else 50000) * (3 if wide else 1)
+    n_random = (5000 if quick else 50000) * (3 if wide else 1)
     for i in range(n_random):
         if time.time() > deadline - (6 if quick else 60):
             ctx.count("random_skipped_for_time", n_random - i)
             break
         run_text(ctx, probe, random_text(ctx.rng, 400 if i % 10 else 4096), "random")
+    # every construct around every kind of leaf, once (and every pair of constructs in the thorough tier)
+    wtexts = [t for _w, t in WRAPPERS]
+    for i, tmpl in enumerate(wtexts):
+        if time.time() > deadline - (5 if quick else 40):
+            ctx.count("shapes_skipped_for_time")
+            break
+        for leaf in LEAF_POOL:
+            run_text(ctx, probe, tmpl.replace(HOLE, leaf), "shape", want_cost=(i % 3 == 0))
+    if not quick or wide:
+        for t1 in wtexts:
+            if time.time() > deadline - (5 if quick else 40):
+                ctx.count("shape_pairs_skipped_for_time")
+                break
+            for t2 in wtexts:
+                for leaf in ("x", "[ ]", "{ }", "\"s\"", "a: b", "[\n  1\n  2\n]"):
+                    run_text(ctx, probe, t1.replace(HOLE, t2.replace(HOLE, leaf)), "shape2")
     # valid random programs: cycles over several leaves at small depth, with the cost model
-    for i in range(150 if quick else 3000):
+    for i in range(500 if quick else 5000):
         if time.time() > deadline - (4 if quick else 30):
             break
         cyc = [ctx.rng.choice(names) for _ in range(ctx.rng.randint(1, 4))]
